@@ -11,14 +11,16 @@
 EXTENDS Naturals, Sequences, FiniteSets, TLC, Json
 
 P == INSTANCE Pipeline WITH Tier <- "quick", feats <- {}, opts <- 0, pc <- "", todo <- {}
-Bases == {"standalone", "references-sibling", "reexported-by-init", "unanalysed-names"}
+Bases == {"standalone", "references-sibling", "reexported-by-init", "unanalysed-names",
+          "private-mixin"}      \* M has a class derived from a private class of another module whose public method mentions a class of a third module
 Perturbs == {"add-plain", "add-same-names", "rename-unrelated", "change-unrelated", "remove-unrelated", "permute-own",
              "reexport-unrelated-same-name",
+             "add-sibling-subclass",             \* unrelated modules (enumerated before and after M) with another subclass of the same private class, same member names
              "remove-all-unrelated"}             \* base "feature": M is one declaration form of Pipeline.tla, the rest of the package is the 120 others     \* an unrelated module reuses M's names and the root __init__ re-exports one of *its* classes
 
 (* abstract package: module name -> content version; M is the module under observation, N a module M references, U unrelated *)
 BasePkg(b) == IF b = "feature" THEN [M |-> 1, N |-> 1, I |-> 0, U |-> 1, U2 |-> 0, RI |-> 0, order |-> 1] ELSE
-              [M |-> 1, N |-> IF b = "references-sibling" THEN 1 ELSE 0, I |-> IF b = "reexported-by-init" THEN 1 ELSE 0, U |-> 0, U2 |-> 0, RI |-> 0, order |-> 1]
+              [M |-> 1, N |-> IF b \in {"references-sibling", "private-mixin"} THEN 1 ELSE 0, I |-> IF b = "reexported-by-init" THEN 1 ELSE 0, U |-> 0, U2 |-> 0, RI |-> 0, order |-> 1]
 WithU(p) == [p EXCEPT !.U = 1]
 Apply(p, k) ==
   CASE k = "add-plain" -> [p EXCEPT !.U = 1]
@@ -28,6 +30,7 @@ Apply(p, k) ==
     [] k = "remove-unrelated" -> [p EXCEPT !.U = 0]
     [] k = "permute-own" -> [p EXCEPT !.order = 2]
     [] k = "remove-all-unrelated" -> [p EXCEPT !.U = 0]
+    [] k = "add-sibling-subclass" -> [p EXCEPT !.U = 4]
     [] k = "reexport-unrelated-same-name" -> [p EXCEPT !.U = 3, !.RI = 1]   \* RI: the root __init__ re-exports a class of U (not of M, not of N)
 StartOf(b, k) == IF k \in {"rename-unrelated", "change-unrelated", "remove-unrelated"} THEN WithU(BasePkg(b)) ELSE BasePkg(b)
 Deps(p) == <<p.M, p.N, p.I>>                       \* what M's stub may depend on
